@@ -156,7 +156,7 @@ func runC09(o Opts) error {
 		}
 		// discovery queued behind another call on a fixed bind port: it is served in its turn and then collects replies for
 		// the whole timeout (six controllers answer 0..75 ms after its request) - it neither gives up early nor overruns
-		for attempt := 0; attempt < 2; attempt++ {
+		for attempt := 0; attempt < 3; attempt++ {
 			nextIndex++
 			idx := nextIndex
 			farm.Plan(idx, Behaviour{NoReply: true})
@@ -164,9 +164,25 @@ func runC09(o Opts) error {
 			u := farmClient(farm, fixedPort, T, []uint32{silent}, nil)
 			var wg sync.WaitGroup
 			wg.Add(1)
-			t0 := time.Now()
+			farm.ResetLog()
 			go func() { defer wg.Done(); u.GetEvent(silent, idx) }()
-			time.Sleep(60 * time.Millisecond)
+			// the first call holds the port from the moment its request is on the wire: wait until the farm has seen it
+			t0 := time.Time{}
+			for w := 0; w < 400 && t0.IsZero(); w++ {
+				for _, ev := range farm.Log() {
+					if ev.Index == idx {
+						t0 = ev.At
+					}
+				}
+				if t0.IsZero() {
+					time.Sleep(time.Millisecond)
+				}
+			}
+			if t0.IsZero() {
+				wg.Wait()
+				continue
+			}
+			time.Sleep(40 * time.Millisecond)
 			st := time.Now()
 			devs, derr := u.GetDevices()
 			dur := time.Since(st)
@@ -175,7 +191,7 @@ func runC09(o Opts) error {
 			queued := T - st.Sub(t0) // time it had to wait for the port
 			js := map[string]any{"op": "queued-discovery", "fault": "queued-discovery", "path": "broadcast", "devices": len(devs), "dur_ms": ms(dur), "waited_ms": ms(queued)}
 			ok := derr == nil && len(devs) == 6 && dur >= queued+T-40*time.Millisecond && dur <= queued+T+150*time.Millisecond
-			if ok || attempt == 1 {
+			if ok || attempt == 2 {
 				if !ok {
 					s.Fail(js, fmt.Sprintf("discovery queued behind another call on the fixed bind port returned %d of 6 controllers after %d ms (waited about %d ms for the port, timeout %d ms): %v", len(devs), ms(dur), ms(queued), ms(T), derr))
 				}
